@@ -690,8 +690,9 @@ impl<D: Data<Elem = A>, A: Float + LinalgScalar> AffFuncBase<PolytopeT, D> {
     /// Distance is not normalized.
     #[inline]
     pub fn distances_raw<S: Data<Elem = A>>(&self, point: &ArrayBase<S, Ix2>) -> Array2<A> {
-        let b_bias = self.bias.broadcast(point.dim()).unwrap();
-        &b_bias.t() - self.mat.dot(point)
+        // entry (r, j) = bias[r] - <row r, column j of point>: the bias is one column, repeated for every point
+        let b_bias = self.bias.view().insert_axis(Axis(1));
+        &b_bias - &self.mat.dot(point)
     }
 }
 
